@@ -43,8 +43,42 @@ def ref_window_after_negation(tabs, nrows, table, negated, new_col, partition_by
     return refsem.ref_window_ordered(t2, nrows, table, partition_by, order_by, reverse, fns)
 
 
+def ref_window_chain(tabs, nrows, table, steps):
+    """the ordered-window reference applied step after step: steps = [(partition_by, order_by, reverse, fns), ...]"""
+    from vf.sym import refsem
+
+    cur, r = tabs, None
+    for part, order, rev, fns in steps:
+        r = refsem.ref_window_ordered(cur, nrows, table, part, order, rev, [tuple(f) for f in fns])
+        cur = {table: {c: [row[i] for row in r.rows] for i, c in enumerate(r.cols)}}
+    return r
+
+
+# two ordered windows in a row whose specifications differ only in the PRIORITY of the order columns / in what is reversed / in the partition:
+# the builder may fuse adjacent extends only when the window specifications are the same
+CHAINS = [
+    ("order_priority_swapped", [(["g"], ["o", "p"], []), (["g"], ["p", "o"], [])]),
+    ("reverse_differs", [(["g"], ["o", "p"], ["p"]), (["g"], ["o", "p"], ["o"])]),
+    ("same_order_other_partition", [(["g"], ["o"], []), (["g", "h"], ["o"], [])]),
+    ("same_spec", [(["g"], ["o", "p"], []), (["g"], ["o", "p"], [])]),
+]
+
+
 def build_jobs(tier, seed, kf_on):
     jobs = []
+    for label, specs_ in CHAINS:
+        steps, src = [], T
+        for i, (part, order, rev) in enumerate(specs_):
+            fns = [(f"c{i}", "cumsum", "x", None), (f"r{i}", "row_number", None, None)]
+            src += f".extend({{'c{i}': 'x.cumsum()', 'r{i}': '_row_number()'}}, partition_by={part!r}, order_by={order!r}, reverse={rev!r})"
+            steps.append((part, order, rev, fns))
+        keycols = sorted({c for part, order, rev in specs_ for c in part + order})
+        for n in ([2, 3] if tier == "quick" else [2, 3, 4]):
+            for bname, side in (("pandas", {"kind": "pandas", "src": src}), ("sqlite", {"kind": "sql", "src": src, "dialect": "sqlite"})):
+                jobs.append(simple.tv_job(f"chain/{label}:{bname}@{n}", SCHEMA, {"w": n}, side,
+                                          {"kind": "fn", "fn": "vf.checks.c27:ref_window_chain", "args": ["w", steps], "label": "window reference step after step"}, kf_on, tier,
+                                          assume=[("distinct", "w", ["g", "o"]), ("distinct", "w", ["g", "p"])], max_paths=4000 if tier == "quick" else 30000,
+                                          wall_s=60 if tier == "quick" else 600))
     ns = [1, 2, 3] if tier == "quick" else [1, 2, 3, 4]
     groups = [["cumsum", "row_number", "shift1"], ["cummax", "cummin", "lead1", "shift2"]]
     # the window step directly after a plain extend that overwrites / creates the column it orders or partitions by ("in the declared order"
